@@ -87,13 +87,34 @@ type c18Args struct {
 
 type c18Key struct{}
 
-var c18EnumNames = map[string]c18Enum{"ONE": 1, "TWO": 2, "THREE": 3}
-var c18EnumIDs = map[string]int{"ONE": 1, "TWO": 2, "THREE": 3}
+type c18Pair struct {
+	Left  string
+	Right *string
+}
+type c18Small struct {
+	Tags  []string
+	Note  *string
+	Name  *string
+	Count *int64
+	Flag  *bool
+	Pair  *c18Pair
+}
+
+// two names for one value are legal (UNO = ONE, DOS = TWO): every registered name must be accepted
+var c18EnumNames = map[string]c18Enum{"ONE": 1, "TWO": 2, "THREE": 3, "UNO": 1, "DOS": 2}
+var c18EnumIDs = map[string]int{"ONE": 1, "TWO": 2, "THREE": 3, "UNO": 1, "DOS": 2}
 
 func c18Schema() *graphql.Schema {
 	sb := schemabuilder.NewSchema()
-	sb.Enum(c18Enum(0), map[string]c18Enum{"ONE": 1, "TWO": 2, "THREE": 3})
+	sb.Enum(c18Enum(0), map[string]c18Enum{"ONE": 1, "TWO": 2, "THREE": 3, "UNO": 1, "DOS": 2})
 	q := sb.Query()
+	// a small argument struct for queries that select one field several times with look-alike values
+	q.FieldFunc("echo2", func(ctx context.Context, args c18Small) string {
+		if p, ok := ctx.Value(c18Key{}).(*[]c18Small); ok {
+			*p = append(*p, args)
+		}
+		return "ok"
+	})
 	q.FieldFunc("echo", func(ctx context.Context, args c18Args) string {
 		if p, ok := ctx.Value(c18Key{}).(*[]c18Args); ok {
 			*p = append(*p, args)
@@ -107,8 +128,12 @@ func c18Schema() *graphql.Schema {
 // ---- tokens -----------------------------------------------------------------------------
 
 type c18Toks struct {
-	strs map[string]int
-	nums map[float64]int
+	strs     map[string]int
+	nums     map[float64]int
+	enumPick int
+	// mix: inside a list literal, some elements are sent as variables; alloc declares one
+	mix   func() bool
+	alloc func(jsonV, jv interface{}) (string, int)
 }
 
 func newC18Toks() *c18Toks {
@@ -262,10 +287,16 @@ func (tk *c18Toks) send(v reflect.Value) (text string, lit interface{}, jsonV in
 	switch x := v.Interface().(type) {
 	case c18Enum:
 		name := "ONE"
+		var names []string
 		for n, e := range c18EnumNames {
 			if e == x {
-				name = n
+				names = append(names, n)
 			}
+		}
+		sort.Strings(names)
+		if len(names) > 0 {
+			tk.enumPick++
+			name = names[tk.enumPick%len(names)]
 		}
 		id := c18EnumIDs[name]
 		return name, map[string]interface{}{"enum": id}, name, map[string]interface{}{"enum": id}
@@ -315,6 +346,11 @@ func (tk *c18Toks) send(v reflect.Value) (text string, lit interface{}, jsonV in
 				continue
 			}
 			t, l, j, jv := tk.send(e)
+			if tk.mix != nil && tk.alloc != nil && tk.mix() {
+				// this element travels as a variable inside the list literal
+				vn, id := tk.alloc(j, jv)
+				t, l = "$"+vn, map[string]interface{}{"var": id}
+			}
 			ts = append(ts, t)
 			lits = append(lits, l)
 			js = append(js, j)
@@ -499,6 +535,9 @@ func c18GenCase(r *Rand) c18Case {
 			cs.Modes[name] = []string{"omit", "null"}[r.Intn(2)]
 		default:
 			cs.Modes[name] = []string{"literal", "variable", "default", "variable"}[r.Intn(4)]
+			if cs.Modes[name] == "literal" && r.Chance(0.5) {
+				cs.Modes[name] = "mixed" // a literal whose list elements (at any depth) are partly variables
+			}
 		}
 	}
 	if r.Chance(0.08) {
@@ -594,7 +633,26 @@ func c18One(c *Ctx, m *Model, schema *graphql.Schema, cs c18Case) {
 			}
 			continue
 		}
+		tk.mix, tk.alloc = nil, nil
+		if mode == "mixed" {
+			mr := NewRand(uint64(varID)*7919 + uint64(i))
+			tk.mix = func() bool { return mr.Chance(0.5) }
+			tk.alloc = func(j, jv interface{}) (string, int) {
+				vn := fmt.Sprintf("v%d", varID)
+				id := varID
+				varDefs = append(varDefs, "$"+vn+": String")
+				vars[vn] = j
+				modelVars = append(modelVars, []interface{}{id, jv})
+				modelDefs = append(modelDefs, map[string]interface{}{"name": id, "nonNull": false, "default": nil})
+				varID++
+				return vn, id
+			}
+		}
 		text, lit, jsonV, jv := tk.send(v.Field(i))
+		tk.mix, tk.alloc = nil, nil
+		if mode == "mixed" {
+			mode = "literal"
+		}
 		if mode == "default" && strings.Contains(text, "$unbound") {
 			mode = "variable" // a default value is a constant: it cannot spell a nil list element
 		}
@@ -697,6 +755,77 @@ func c18One(c *Ctx, m *Model, schema *graphql.Schema, cs c18Case) {
 	rep.Eval(query+Canon(vars), true, map[string]interface{}{"query": firstN(query, 400)})
 }
 
+// c18Twins: one field selected twice (two aliases) with argument values that look alike - equal when printed with
+// fmt, different as values - and pairs in which the second value is of the wrong kind: each call must receive its
+// own value, and the wrong kind must be rejected whatever its neighbour is.
+func c18Twins(c *Ctx, schema *graphql.Schema) {
+	rep := c.Rep
+	type twin struct {
+		a, b    string // argument texts of the two selections
+		wantA   c18Small
+		wantB   *c18Small // nil: the second selection is of the wrong kind and the query must be rejected
+		byVar   bool
+		varsA   map[string]interface{}
+		comment string
+	}
+	sp := func(s string) *string { return &s }
+	ip := func(n int64) *int64 { return &n }
+	bp := func(b bool) *bool { return &b }
+	twins := []twin{
+		{a: `tags: ["x y"]`, b: `tags: ["x", "y"]`, wantA: c18Small{Tags: []string{"x y"}}, wantB: &c18Small{Tags: []string{"x", "y"}}},
+		{a: `tags: []`, b: `tags: [""]`, wantA: c18Small{Tags: []string{}}, wantB: &c18Small{Tags: []string{""}}},
+		{a: `tags: ["[a b]"]`, b: `tags: [["a", "b"]]`, wantA: c18Small{Tags: []string{"[a b]"}}, wantB: nil},
+		{a: `tags: [], note: "<nil>"`, b: `tags: []`, wantA: c18Small{Tags: []string{}, Note: sp("<nil>")}, wantB: &c18Small{Tags: []string{}}},
+		{a: `tags: [], name: "1"`, b: `tags: [], name: 1`, wantA: c18Small{Tags: []string{}, Name: sp("1")}, wantB: nil},
+		{a: `tags: [], count: 5`, b: `tags: [], count: "5"`, wantA: c18Small{Tags: []string{}, Count: ip(5)}, wantB: nil},
+		{a: `tags: [], flag: true`, b: `tags: [], flag: "true"`, wantA: c18Small{Tags: []string{}, Flag: bp(true)}, wantB: nil},
+		{a: `tags: [], pair: {left: "1 right:2"}`, b: `tags: [], pair: {left: "1", right: "2"}`, wantA: c18Small{Tags: []string{}, Pair: &c18Pair{Left: "1 right:2"}}, wantB: &c18Small{Tags: []string{}, Pair: &c18Pair{Left: "1", Right: sp("2")}}},
+		{a: `tags: ["a"], count: 1`, b: `tags: ["a"], count: 1`, wantA: c18Small{Tags: []string{"a"}, Count: ip(1)}, wantB: &c18Small{Tags: []string{"a"}, Count: ip(1)}},
+	}
+	canon := func(x c18Small) string { b, _ := json.Marshal(x); return string(b) }
+	for _, tw := range twins {
+		for _, order := range []bool{false, true} {
+			first, second := tw.a, tw.b
+			if order {
+				first, second = tw.b, tw.a
+			}
+			query := "query Q { x: echo2(" + first + ") y: echo2(" + second + ") }"
+			var got []c18Small
+			ctx := context.WithValue(context.Background(), c18Key{}, &got)
+			_, ierr := gqlRun(ctx, schema, query, map[string]interface{}{})
+			cs := map[string]interface{}{"twins": query}
+			if tw.wantB == nil {
+				if ierr == nil {
+					rep.Fail("impl_ne_spec", nil, cs, map[string]interface{}{"what": "a value of the wrong kind was accepted next to a look-alike of the right kind", "query": query, "received": fmt.Sprint(len(got))})
+					return
+				}
+				if len(got) > 0 {
+					rep.Fail("impl_ne_spec", nil, cs, map[string]interface{}{"what": "a resolver ran although the query was rejected", "query": query})
+					return
+				}
+			} else {
+				if ierr != nil {
+					rep.Fail("impl_ne_spec", nil, cs, map[string]interface{}{"what": "well-typed arguments rejected", "query": query, "error": ierr.Error()})
+					return
+				}
+				var have, want []string
+				for _, g := range got {
+					have = append(have, canon(g))
+				}
+				want = []string{canon(tw.wantA), canon(*tw.wantB)}
+				sort.Strings(have)
+				sort.Strings(want)
+				if fmt.Sprint(have) != fmt.Sprint(want) {
+					rep.Fail("impl_ne_spec", nil, cs, map[string]interface{}{"what": "two selections of one field with look-alike arguments: the resolver calls did not receive the two values sent", "query": query, "received": have, "sent": want})
+					return
+				}
+			}
+			rep.Count("twins")
+			rep.Eval(query, true, map[string]interface{}{"query": query})
+		}
+	}
+}
+
 func c18TamperLit(text string, tk *c18Toks) interface{} {
 	switch text {
 	case "true":
@@ -735,7 +864,7 @@ func runC18(c *Ctx) error {
 	}
 	defer m.Close()
 	schema := c18Schema()
-	c.Rep.Rule = "random values of a 34-field argument struct (all integer widths within ±2^53, floats, string, bytes, time, enum, text-unmarshaler, named scalar, pointers, optional tags, lists incl. nil elements, nested and optional input objects); each field sent as literal / variable / variable default (sometimes with an explicit null) / omitted / null; one field in five replaced by a value of another kind; all non-trivial; distinct by query text + variables"
+	c.Rep.Rule = "random values of a 34-field argument struct (all integer widths within ±2^53, floats, string, bytes, time, enum, text-unmarshaler, named scalar, pointers, optional tags, lists incl. nil elements, nested and optional input objects); an enum with two names for one value; each field sent as literal / literal whose list elements are partly variables / variable / variable default (sometimes with an explicit null) / omitted / null; one field in five replaced by a value of another kind; one field selected twice with look-alike values (equal when printed, different as values, or of the wrong kind); all non-trivial; distinct by query text + variables"
 	c.Rep.Assumptions = append(c.Rep.Assumptions,
 		"Env laws (opaque tokens): base64, RFC 3339 and UnmarshalText invert their encoders; float literals print/parse exactly (strconv)",
 		"the GraphQL lexer/parser (graphql-go) is exercised, not modelled",
@@ -754,6 +883,7 @@ func runC18(c *Ctx) error {
 		c18One(c, m, schema, f.Case)
 		return nil
 	}
+	c18Twins(c, schema)
 	n := c.N(1500, 60000)
 	for i := 0; i < n; i++ {
 		c18One(c, m, schema, c18GenCase(c.Rng))
